@@ -22,22 +22,46 @@ def ops_block_constructs(prog, f, bb):
     return ops.block_constructs(prog, f, bb)
 
 
+def _err_switches(f, min_cases=1):
+    out = []
+    for bb in range(len(f.blocks)):
+        if f.is_cleanup(bb) or f.term(bb)["k"] != "switch":
+            continue
+        info = f.switch_info(bb)
+        if info and info["kind"] == "discr" and info["enum"] == ERR and len(info["cases"]) >= min_cases:
+            out.append((bb, info))
+    return out
+
+
 def renderers(prog):
+    """Functions holding a big decision table over Error (>= 10 variants)
+    outside derive/snafu expansions and trait impls: the renderer, or a peel
+    helper it consults (`into_context_source(self) -> Result<Error, Error>`)."""
     out = []
     for f in prog.hand_fns():
-        if f.from_expansion or f.module.startswith("eval::error"):
+        if f.from_expansion or f.impl_trait is not None or f.is_closure:
             continue
-        for bb in range(len(f.blocks)):
-            if f.is_cleanup(bb):
-                continue
-            if f.term(bb)["k"] != "switch":
-                continue
-            info = f.switch_info(bb)
-            if info and info["kind"] == "discr" and info["enum"] == ERR \
-                    and len(info["cases"]) >= 10:
-                out.append((f, bb, info))
-                break
+        sw = _err_switches(f, 10)
+        if sw:
+            out.append((f, sw[0][0], sw[0][1]))
     return out
+
+
+def _boxed_source_reads(f, cp):
+    """Variants V of the Error at canonical path cp whose boxed source
+    `(place as V).source` is read in f."""
+    reads = set()
+    for bb, i, pl, rv, sp in f.assigns():
+        for p in mir.rvalue_places(rv):
+            projs = p[1]
+            for j, pr in enumerate(projs):
+                if pr != "*" and pr[0] == "d" and j + 1 < len(projs):
+                    nx = projs[j + 1]
+                    if nx != "*" and nx[0] == "f" and nx[2] == BOX_ERR:
+                        base = (p[0], projs[:j])
+                        if f.canon(base) == cp:
+                            reads.add(pr[1])
+    return reads
 
 
 def rule_L1(ctx):
@@ -51,56 +75,75 @@ def rule_L1(ctx):
     if not r.require_floor("renderer functions", len(rs), 1):
         return r
     r.require_floor("wrapper variants", len(es.wrappers), 60)
-    rpaths = {f.path for f, _, _ in rs}
+    # A renderer *group*: a function with the big table plus the functions
+    # that drive it (call it and then loop or recurse) and may peel a few
+    # variants themselves (`match e.into_context_source() { Ok(s) => render(s),
+    # Err(e) => match e { AtLoc{..} => .., .. } }`).
     for f, sbb, info in rs:
-        cp = f.canon(info["place"])
-        vf = mir.VariantFlow(f, [(cp, ERR)])
-        # reads of (place as V).field where field type is Box<Error>
-        reads = set()
-        for bb, i, pl, rv, sp in f.assigns():
-            for p in mir.rvalue_places(rv):
-                projs = p[1]
-                for j, pr in enumerate(projs):
-                    if pr != "*" and pr[0] == "d" and j + 1 < len(projs):
-                        nx = projs[j + 1]
-                        if nx != "*" and nx[0] == "f" and nx[2] == BOX_ERR:
-                            base = (p[0], projs[:j])
-                            if f.canon(base) == cp:
-                                reads.add(pr[1])
-        # iterative peelers: a function that hands the boxed source back
-        # (`Ok((layer, source))` / `Some(source)`) to a caller that calls it
-        # again in a loop, instead of recursing
-        self_rec = any((not c.is_ptr) and c.res in rpaths for c in f.calls())
-        driver_loops = False
+        members = [f]
+        for c in prog.callers_of(f.path):
+            h = c.fn.root_fn()
+            if h not in members and not h.from_expansion:
+                members.append(h)
+        gpaths = {m.path for m in members}
+        # per member: the Error places it switches on, their flows and reads
+        tables = []
+        for m in members:
+            for (bb_, info_) in _err_switches(m):
+                cp_ = m.canon(info_["place"])
+                if any(t[0] is m and t[1] == cp_ for t in tables):
+                    continue
+                tables.append((m, cp_, mir.VariantFlow(m, [(cp_, ERR)]), _boxed_source_reads(m, cp_)))
+        self_rec = any((not c.is_ptr) and c.res == f.path for c in f.calls())
+        # a driver loops over the peel helper, or calls it and recurses
+        driven = False
+        for c in prog.callers_of(f.path):
+            h = c.fn
+            if h.root_fn().path == f.path:
+                continue
+            if h.in_any_loop(c.bb):
+                driven = True
+            after = h.reach_from(c.bb)
+            if any((not c2.is_ptr) and c2.res in gpaths and c2.res != f.path and c2.bb in after
+                   for c2 in h.calls()):
+                driven = True
         if not self_rec:
-            for c in prog.callers_of(f.path):
-                if c.fn.in_any_loop(c.bb):
-                    driver_loops = True
-            r.inst("%s peels one layer per call; called in a loop: %s" % (f.path, driver_loops))
+            r.inst("%s peels one layer per call; driven (looped over or followed by a recursive call) by its callers: %s"
+                   % (f.path, driven))
+        if len(members) > 1:
+            r.inst("renderer group of %s: %s" % (f.path, sorted(gpaths)))
         for v in sorted(es.wrappers):
-            blocks = vf.blocks_for((v,))
-            recursive = False
-            for bb in blocks:
-                c = f.call_at(bb)
-                if c is not None and not c.is_ptr and c.res in rpaths:
-                    recursive = True
-                    break
-            if not self_rec and driver_loops:
+            peeled = recursive = False
+            where_ = []
+            for (m, cp_, vf_, reads_) in tables:
+                if v not in reads_:
+                    continue
+                blocks = vf_.blocks_for((v,))
+                rec_ = False
                 for bb in blocks:
-                    bc = ops_block_constructs(prog, f, bb)
-                    if ("std::result::Result", "Ok") in bc or ("std::option::Option", "Some") in bc:
-                        recursive = True
+                    c = m.call_at(bb)
+                    if c is not None and not c.is_ptr and c.res in gpaths:
+                        rec_ = True
                         break
-            r.inst("%s: variant %s peeled=%s recurses=%s"
-                   % (f.path, v, v in reads, recursive))
-            if v in reads and recursive:
+                if not rec_ and m is f and not self_rec and driven:
+                    for bb in blocks:
+                        bc = ops_block_constructs(prog, m, bb)
+                        if ("std::result::Result", "Ok") in bc or ("std::option::Option", "Some") in bc:
+                            rec_ = True
+                            break
+                peeled = True
+                recursive = recursive or rec_
+                where_.append(m.path)
+            r.inst("%s: variant %s peeled=%s recurses=%s%s"
+                   % (f.path, v, peeled, recursive, (" (in %s)" % ",".join(sorted(set(where_)))) if len(members) > 1 else ""))
+            if peeled and recursive:
                 r.ok()
             else:
                 r.fail("%s | variant=%s" % (f.path, v),
                        "wrapper variant Error::%s carries a boxed source but "
                        "the renderer %s does not peel it (source read: %s, "
                        "recursive call on its path: %s); an error wrapped in "
-                       "it prints as '%s: ...'" % (v, f.path, v in reads,
+                       "it prints as '%s: ...'" % (v, f.path, peeled,
                                                    recursive, v),
                        where=mir.span_loc(f.span))
     return r
